@@ -67,6 +67,8 @@ func (E *Engine) solveAll(cfg runCfg) []*OblResult {
 		jobs = append(jobs, &job{o: o})
 	}
 	var wg sync.WaitGroup
+	var fmu sync.Mutex
+	failedNames := map[string]bool{}
 	sem := make(chan struct{}, cfg.Jobs)
 	for _, j := range jobs {
 		wg.Add(1)
@@ -74,6 +76,20 @@ func (E *Engine) solveAll(cfg runCfg) []*OblResult {
 		go func(j *job) {
 			defer wg.Done()
 			defer func() { <-sem }()
+			fmu.Lock()
+			skip := failedNames[j.o.Name]
+			fmu.Unlock()
+			if skip {
+				j.res = SolveResult{Status: "skipped", Solver: "-"}
+				return
+			}
+			defer func() {
+				if j.res.Status != "unsat" {
+					fmu.Lock()
+					failedNames[j.o.Name] = true
+					fmu.Unlock()
+				}
+			}()
 			j.q = E.buildQuery(j.o.Reading, j.o.Hyps, j.o.Goal)
 			if d := os.Getenv("GVC_DUMPALL"); d != "" {
 				os.MkdirAll(d, 0o755)
@@ -121,7 +137,14 @@ func (E *Engine) solveAll(cfg runCfg) []*OblResult {
 		if r.Solver == "" {
 			r.Solver = j.res.Solver
 		}
-		if j.res.Status != "unsat" && r.Status == "discharged" {
+		if j.res.Status == "skipped" {
+			if r.Status == "discharged" {
+				r.Status = "failed"
+				r.FailInfo = "another path instance failed"
+			}
+			continue
+		}
+		if j.res.Status != "unsat" && (r.Status == "discharged" || r.failQuery == "") {
 			r.Status = "failed"
 			r.FailInfo = j.res.Status + " by " + j.res.Solver
 			r.failQuery = j.q
